@@ -24,6 +24,14 @@ BMOC_ASSUME = [
     "BMOCBuilderUnsafe::push / to_bmoc used to build operands",
 ]
 
+COV_ASSUME = [
+    "TLC / SANY and the CommunityModules Json/IOUtils are correct",
+    "the reference bridge (harness/src/geo.rs): C&R formulae, atan2-based angular distance, face classification; a witness is kept only if it is "
+    "inside the region by a margin (r (1 - 1e-7) - 3e-15) AND inside a cell by 2e-4 cell, so that its cell provably contains a point of the region",
+    "Dmax(depth) used for tightness is measured by the bridge over all cells of depths 0..5 and scaled (x1.02) deeper",
+    "results larger than 300 cells are not traced",
+]
+
 PROPS = {
     "C01": {
         "level": "model_checking",
@@ -382,6 +390,38 @@ PROPS = {
             {"kind": "mc", "module": "MC_Geo", "cfg": {"quick": "MC_Geo.cfg", "thorough": "MC_Geo_thorough.cfg"}, "workers": 6},
             {"kind": "gen", "module": "Gen_Lookup", "cfg": "Gen_Lookup.cfg", "scenario": "C16a", "exhaustive": True},
             {"kind": "rec", "scenario": "C16", "count": {"quick": 8000, "thorough": 200000}, "trace_module": "Trace_Geo", "trace_cfg": "Trace_Geo.cfg"},
+        ],
+    },
+    "C13": {
+        "level": "exploration",
+        "claim": "Decided by the specification: the result is well formed at the requested depth; some cell whose closure contains the ellipse "
+                 "centre (StarFace of its face, z-order path through HpxZoc) is covered, possibly by an ancestor; when a = b the C05 witness rule "
+                 "applies verbatim (every cell provably containing a point of the circular cone is covered); a >= pi/2 panics, for the plain and the "
+                 "custom variant. Measured by the bridge, thresholded by TLC: no reported cell centre farther than a + 2 Dmax(depth). Classes: "
+                 "centres as C05 (seams, poles, borders), axis ratio {1, 0.9, 0.5, 0.1, 0.01}, position angle {0, pi/4, pi/2, 3pi/4, pi - eps, random}, "
+                 "a at the starting-depth thresholds, just below pi/2 and log-uniform, delta_depth 0..3. Level exploration: the inside / outside "
+                 "predicate of a non-circular ellipse is not re-derived.",
+        "rule": "events = one elliptical cone query (plain or custom) with its BMOC; non-trivial = all distinct events",
+        "assumptions": COV_ASSUME,
+        "stages": [
+            {"kind": "mc", "module": "MC_Coverage", "cfg": "MC_Coverage.cfg", "workers": 6},
+            {"kind": "rec", "scenario": "C13", "count": {"quick": 6000, "thorough": 150000}, "trace_module": "Trace_Bmoc", "trace_cfg": "Trace_Bmoc.cfg", "shards": 10},
+        ],
+    },
+    "C12": {
+        "level": "exploration",
+        "claim": "Decided by the specification: the result is well formed at the requested depth and, for every polygon vertex, some cell whose closure "
+                 "contains it is covered (both modes). Measured by the bridge with an independent convex point-in-polygon test (same side of every "
+                 "edge's great circle as the centre, margin 1e-9) and thresholded by TLC: for convex polygons every cell flagged full has its 4 "
+                 "vertices and centre inside; polygons built in a cone of radius < 0.3 have no reported cell centre farther than radius + 2 Dmax; "
+                 "Polygon::contains agrees with the geometric definition on ~30 points per polygon (around the polygon, near its vertices, anywhere "
+                 "on the sphere). Classes: 3..8 vertices, both windings, regular convex / star-shaped with jitter, sizes 1e-7 .. 0.78 rad, centres "
+                 "incl. lon = 0 crossing and base-cell seams, short of the poles. No-miss soundness is not claimed (the property does not).",
+        "rule": "events = one polygon query (approx or exact) with its BMOC; non-trivial = all distinct events",
+        "assumptions": COV_ASSUME,
+        "stages": [
+            {"kind": "mc", "module": "MC_Geo", "cfg": {"quick": "MC_Geo.cfg", "thorough": "MC_Geo_thorough.cfg"}, "workers": 6},
+            {"kind": "rec", "scenario": "C12", "count": {"quick": 5000, "thorough": 120000}, "trace_module": "Trace_Bmoc", "trace_cfg": "Trace_Bmoc.cfg", "shards": 10},
         ],
     },
 }
